@@ -52,7 +52,8 @@ func targetDuration(segments []muxerSegment) int {
 
 	// EXTINF, when rounded to the nearest integer, must be <= EXT-X-TARGETDURATION
 	for _, sog := range segments {
-		v := int(math.Round(sog.getDuration().Seconds()))
+		// the duration is listed with a resolution of 10 us: round what is listed, not what is stored
+		v := int(math.Round(sog.getDuration().Round(10 * time.Microsecond).Seconds()))
 		if v > ret {
 			ret = v
 		}
